@@ -122,4 +122,40 @@ def isSameOrigin (o : Origin) (patterns : List Bytes) : Bool :=
   | .null => false
   | .triple s h p => patterns.any (fun pat => Glob.reMatch pat (originHeader s h p))
 
+/-! ### `autobahn.websocket.util.parse_url` (TCP form; `ws://unix:…` is not modelled) -/
+
+structure WsUrl where
+  secure : Bool
+  host : Bytes
+  port : Nat
+  resource : Bytes
+deriving DecidableEq, Repr
+
+/-- `_splitparams(path)`: the `;params` of the LAST path segment are cut off (`urlparse` does this for ws/wss because
+`autobahn.websocket.util` registers them in `uses_params`) -/
+def splitParams (path : Bytes) : Bytes :=
+  match rcut 47 path with
+  | some (dir, last) => (match cut 59 last with | some (a, _) => dir ++ [47] ++ a | none => path)
+  | none => (match cut 59 path with | some (a, _) => a | none => path)
+
+/-- `parse_url(url)`; `none` = ValueError -/
+def parseUrl (brOk : Bytes → Bool) (url : Bytes) : Option WsUrl :=
+  match urlsplit brOk url with
+  | none => none
+  | some u =>
+    if u.scheme ≠ b!"ws" ∧ u.scheme ≠ b!"wss" then none else
+    match hostname u.netloc with
+    | none => none
+    | some h =>
+      if u.fragment ≠ [] then none else
+      if h = b!"unix" then none else
+      let path := splitParams u.path
+      let ppath := if path = [] then b!"/" else path
+      let resource := if u.query ≠ [] then ppath ++ b!"?" ++ u.query else ppath
+      match port u.netloc with
+      | none => none
+      | some p =>
+        let tcp := match p with | some n => n | none => if u.scheme = b!"ws" then 80 else 443
+        if tcp < 1 ∨ tcp > 65535 then none else some ⟨u.scheme = b!"wss", h, tcp, resource⟩
+
 end Abverif.Url
